@@ -461,7 +461,10 @@ def build():
     'C08', units,
     bounded=[Bounded('C08/pattern/whole_name_and_single_segment_fields', 'replay/c08_regex.py', ['--segs', '3'], ['--segs', '4'],
                      "rule patterns with <= 2 (quick) / 3 (thorough) segments over {literal, *, lit*, <f>, <<f>>} x names with <= 3 / 4 segments over the alphabet {a, b, '.', newline} on the real AggregationRule.build_regex, against an independent matcher written from the documentation",
-                     "semantics of Python's re on a constructed pattern (lazy groups, `$` vs end of string): no re theory in z3 / cvc5 matches it")],
+                     "semantics of Python's re on a constructed pattern (lazy groups, `$` vs end of string): no re theory in z3 / cvc5 matches it"),
+             Bounded('C08/native/buffer_contracts_cross_check', 'replay/c08_native.py', ['--len', '5'], ['--len', '7'],
+                     "every stream of <= 5 (quick) / 7 (thorough) events over {flush tick, arrival 0/1/2/3/4/6 intervals old} for MAX_AGGREGATION_INTERVALS in {0,1,2} on the real MetricBuffer with a virtual clock, distinct power-of-two values and sum as rule function (emitted value decodes to the exact value set)",
+                     "cross-check of the discharged buffer contracts on CPython; also the only judge left when a refactoring of compute_value moves the loop anchors of the sidecar contract")],
     trusted_base=['A-ENGINE', 'A-SMT', 'A-CLOCK', 'A-LIB(dict/list/sorted models)'],
     assumptions=[
       "timestamps are integers here (interval = ts - ts % frequency); the aggregation function is an uninterpreted function of the list of values; values are reals (A-REAL)",
